@@ -21,6 +21,19 @@ pub struct Failure {
 
 pub type R<T> = Result<T, String>;
 
+thread_local! {
+    /// key involved in the most recent oracle failure on this thread (for known-finding signatures)
+    pub static LAST_FAIL_KEY: std::cell::RefCell<Option<Vec<u8>>> = const { std::cell::RefCell::new(None) };
+}
+
+pub fn note_fail_key(k: &[u8]) {
+    LAST_FAIL_KEY.with(|c| *c.borrow_mut() = Some(k.to_vec()));
+}
+
+pub fn take_fail_key() -> Option<Vec<u8>> {
+    LAST_FAIL_KEY.with(|c| c.borrow_mut().take())
+}
+
 #[derive(Default, Clone, Debug)]
 pub struct Stats {
     pub ctr: BTreeMap<String, u64>,
@@ -885,6 +898,7 @@ pub fn check_point(
         Expect::Exact(exp) => {
             let expv = exp.as_ref().map(|(v, _)| v.clone());
             if &expv != got {
+                note_fail_key(key);
                 return Err(format!(
                     "{what}: key {:?} at snapshot {snap}: expected {}, got {}",
                     crate::util::hex(key),
@@ -897,6 +911,7 @@ pub fn check_point(
         Expect::Loose => {
             if let Some(v) = got {
                 if !model.was_ever_written(key, v) {
+                    note_fail_key(key);
                     return Err(format!(
                         "{what}: key {:?} at snapshot {snap}: returned a value never written for this key: {}",
                         crate::util::hex(key),
